@@ -461,6 +461,7 @@ func checkC07(P *Prog, r *Result) {
 	r.floor("C07/reinit", 12)
 	P.checkPooledSliceHeader(r, "C07/pooled-slice-header")
 	P.checkNoGlobalPooledObject(r)
+	P.checkPooledMapOwned(r, "C07/pooled-map-owned")
 
 	// ---- release ----
 	P.checkRelease(r)
@@ -1435,4 +1436,181 @@ func (P *Prog) checkNoGlobalPooledObject(r *Result) {
 	if found == 0 {
 		r.ok("C07/no-global-pooled-object", "module", "-", "no package-level variable of a pooled pointer type")
 	}
+}
+
+// checkPooledMapOwned: a map-typed field of a pooled execution object (the values of an ExecCtx, the issue map
+// of an ErrsMap) that module code writes into (m[k] = v, delete) is only ever set to a map made for that purpose:
+// nil, make(...), a literal, maps.Clone, or the result of a module function that returns only such maps. A map
+// handed in by the caller and adopted as is would receive this execution's writes: the values of one call leak
+// into the caller's map and into every later call that passes the same map.
+func (P *Prog) checkPooledMapOwned(r *Result, rule string) {
+	// pooled struct types: whatever is handed to Pool.Put, whatever Pool.Get is asserted to
+	pooled := map[*types.TypeName]*types.Struct{}
+	note := func(t types.Type) {
+		pt, ok := t.Underlying().(*types.Pointer)
+		if !ok {
+			return
+		}
+		nm, ok := types.Unalias(pt.Elem()).(*types.Named)
+		if !ok {
+			return
+		}
+		if st, ok := nm.Underlying().(*types.Struct); ok && nm.Obj().Pkg() != nil && inModule(nm.Obj().Pkg().Path()) {
+			pooled[nm.Origin().Obj()] = st
+		}
+	}
+	for _, s := range P.poolSites() {
+		if s.elem != nil {
+			note(types.NewPointer(s.elem))
+		}
+	}
+	for _, fn := range P.Funcs {
+		eachInstr(fn, func(_ *ssa.BasicBlock, _ int, in ssa.Instruction) {
+			if ci := callOf(in); isSyncPoolMethod(ci, "Put") && len(ci.args()) == 2 {
+				note(cvi(ci.args()[1]).Type())
+			}
+		})
+	}
+	ownerOf := func(base ssa.Value) *types.TypeName {
+		pt, ok := base.Type().Underlying().(*types.Pointer)
+		if !ok {
+			return nil
+		}
+		nm, ok := types.Unalias(pt.Elem()).(*types.Named)
+		if !ok {
+			return nil
+		}
+		if _, isPooled := pooled[nm.Origin().Obj()]; !isPooled {
+			return nil
+		}
+		return nm.Origin().Obj()
+	}
+	type fkey struct {
+		owner *types.TypeName
+		field string
+	}
+	written := map[fkey]string{}
+	for _, fn := range P.Funcs {
+		eachInstr(fn, func(_ *ssa.BasicBlock, _ int, in ssa.Instruction) {
+			var m ssa.Value
+			switch x := in.(type) {
+			case *ssa.MapUpdate:
+				m = x.Map
+			default:
+				if ci := callOf(in); ci != nil && (ci.builtin == "delete" || ci.builtin == "clear") && len(ci.args()) >= 1 {
+					m = ci.args()[0]
+				} else if ci != nil && ci.static != nil && originName(ci.static) == "maps.Copy" && len(ci.args()) == 2 {
+					m = ci.args()[0]
+				}
+			}
+			if m == nil {
+				return
+			}
+			if _, isMap := m.Type().Underlying().(*types.Map); !isMap {
+				return
+			}
+			// the map written is the one held in a field of a pooled object (directly, or through a local copy of it)
+			var visit func(v ssa.Value, d int)
+			visit = func(v ssa.Value, d int) {
+				if d > 4 || v == nil {
+					return
+				}
+				v = cv(v)
+				if base, f := loadOfField(v); f != nil {
+					if o := ownerOf(base); o != nil {
+						if _, seen := written[fkey{o, f.Name()}]; !seen {
+							written[fkey{o, f.Name()}] = P.ipos(in)
+						}
+					}
+					return
+				}
+				if ph, ok := v.(*ssa.Phi); ok {
+					for _, e := range ph.Edges {
+						visit(e, d+1)
+					}
+				}
+			}
+			visit(m, 0)
+		})
+	}
+	var fresh func(v ssa.Value, d int) bool
+	fresh = func(v ssa.Value, d int) bool {
+		if d > 5 || v == nil {
+			return false
+		}
+		switch x := cv(v).(type) {
+		case *ssa.MakeMap:
+			return true
+		case *ssa.Const:
+			return x.Value == nil
+		case *ssa.Phi:
+			for _, e := range x.Edges {
+				if !fresh(e, d+1) {
+					return false
+				}
+			}
+			return true
+		case *ssa.Call:
+			ci := callOf(x)
+			if ci.static == nil {
+				return false
+			}
+			if originName(ci.static) == "maps.Clone" {
+				return true
+			}
+			if ci.static.Blocks == nil || !inModule(funcPkgPath(ci.static)) {
+				return false
+			}
+			n, all := 0, true
+			eachInstr(ci.static, func(_ *ssa.BasicBlock, _ int, in ssa.Instruction) {
+				rt, ok := in.(*ssa.Return)
+				if !ok || len(rt.Results) != 1 {
+					return
+				}
+				n++
+				if !fresh(rt.Results[0], d+1) {
+					all = false
+				}
+			})
+			return n > 0 && all
+		case *ssa.UnOp:
+			// the same field read back (`m := c.m; if m == nil { m = make(...) }; c.m = m`)
+			if base, f := loadOfField(x); f != nil && ownerOf(base) != nil {
+				return true
+			}
+		}
+		return false
+	}
+	n := 0
+	for _, fn := range P.Funcs {
+		eachInstr(fn, func(_ *ssa.BasicBlock, _ int, in ssa.Instruction) {
+			st, ok := in.(*ssa.Store)
+			if !ok {
+				return
+			}
+			base, f := fieldVar(st.Addr)
+			if f == nil {
+				return
+			}
+			o := ownerOf(base)
+			if o == nil {
+				return
+			}
+			at, isWritten := written[fkey{o, f.Name()}]
+			if !isWritten {
+				return
+			}
+			n++
+			c := fmt.Sprintf("%s#%s.%s", fname(fn), o.Name(), f.Name())
+			if fresh(st.Val, 0) {
+				r.ok(rule, c, P.ipos(in), "the map the execution writes into ("+at+") is nil or one made for this object")
+			} else {
+				r.bad(rule, c, P.ipos(in), fmt.Sprintf("field %s of the pooled %s is set to a map this code did not make, and the execution writes into that field's map (%s): what one call sets lands in the caller's map and in every later call that passes it", f.Name(), o.Name(), at))
+			}
+		})
+	}
+	if len(pooled) == 0 {
+		r.broken("vacuous: no pooled struct types found")
+	}
+	r.floor(rule, 2)
 }
